@@ -1,16 +1,31 @@
 (* Invariants of the walk of Cnf::from over the node vector (model: ToCnf.run).
    Shape : numbering of the Tseitin variables, cache = biconditionals, ranges of all literals
    Nodes : what each node's literal is; every biconditional has a source node
-   Mu    : the literal determines the number of leaves of the tree unfolding of a node
-           (this is what rules out that the root is a cache hit, see ToCnfRoot.v) *)
+   Mu    : the literal determines the size of the tree unfolding of a node (leaves and nodes
+           with <> 1 children; single-child nodes do not count) - this is what rules out that
+           the root is a cache hit, see ToCnfRoot.v.  Since the repair F20 constants and
+           childless operations are in the vector: they have size 1 like a leaf, which is why
+           the measure counts inner nodes too (with the number of leaves alone, And [x; True]
+           would weigh as much as x). *)
 From Coq Require Import List ZArith Bool Lia.
 From DD Require Import Model.Circuit Model.ToCnf Proofs.PassLemmas Proofs.ToCnfBase.
 Import ListNotations.
 Open Scope Z_scope.
 
 Definition Lt (st : tstate) (j : nat) : Z := nth j (ts_lits st) 0.
-Definition mu (C : circuit) (j : nat) : nat := length (nth j (varss C) []).
+Definition mu_of_children (acc : list nat) (cs : list nat) : nat :=
+  match cs with
+  | [c] => nth c acc 0%nat
+  | _ => S (fold_right (fun c a => (nth c acc 0%nat + a)%nat) 0%nat cs)
+  end.
+Definition mu_node (acc : list nat) (nd : ntype) : nat :=
+  match nd with Lit _ => 1%nat | _ => mu_of_children acc (children nd) end.
+Definition mus (C : circuit) : list nat := pass mu_node C.
+Definition mu (C : circuit) (j : nat) : nat := nth j (mus C) 0%nat.
 Definition musum (C : circuit) (cs : list nat) : nat := fold_right (fun c a => (mu C c + a)%nat) 0%nat cs.
+(* the size of an operation node with the children cs *)
+Definition mu_cs (C : circuit) (cs : list nat) : nat :=
+  match cs with [c] => mu C c | _ => S (musum C cs) end.
 
 Lemma Lt_set_old l st j : (j < length (ts_lits st))%nat -> Lt (set_literal l st) j = Lt st j.
 Proof. intros H. unfold Lt, set_literal. cbn [ts_lits]. now rewrite app_nth1. Qed.
@@ -39,27 +54,46 @@ Proof. rewrite app_nth2 by lia. now rewrite Nat.sub_diag. Qed.
 
 Lemma mu_snoc_old C nd j : (j < length C)%nat -> mu (C ++ [nd]) j = mu C j.
 Proof.
-  intros H. unfold mu, varss. rewrite pass_snoc. rewrite app_nth1; [reflexivity|].
+  intros H. unfold mu, mus. rewrite pass_snoc. rewrite app_nth1; [reflexivity|].
   now rewrite pass_length.
 Qed.
-Lemma mu_snoc_new C nd : mu (C ++ [nd]) (length C) = length (vars_node (varss C) nd).
+Lemma mu_snoc_new C nd : mu (C ++ [nd]) (length C) = mu_node (mus C) nd.
 Proof.
-  unfold mu, varss. rewrite pass_snoc.
-  rewrite <- (pass_length vars_node C) at 1. now rewrite nth_snoc_new.
+  unfold mu, mus. rewrite pass_snoc.
+  rewrite <- (pass_length mu_node C) at 1. now rewrite nth_snoc_new.
 Qed.
 
-Lemma length_concat_vars C cs :
-  length (concat (map (fun c => nth c (varss C) []) cs)) = musum C cs.
+Lemma mu_of_children_cs C cs : mu_of_children (mus C) cs = mu_cs C cs.
+Proof. reflexivity. Qed.
+
+Lemma mu_cs_len C cs : length cs <> 1%nat -> mu_cs C cs = S (musum C cs).
+Proof. destruct cs as [|c1 [|c2 cs]]; cbn [length]; intros H; [reflexivity|lia|reflexivity]. Qed.
+
+Lemma mu_node_op nd op cs C :
+  node_op nd = Some (op, cs) -> mu_node (mus C) nd = mu_cs C cs.
 Proof.
-  induction cs as [|c cs IH]; [reflexivity|]. cbn [map concat musum fold_right].
-  rewrite app_length, IH. reflexivity.
+  destruct nd as [l|cs'|cs'| |]; cbn [node_op]; intros H; inversion H; subst; reflexivity.
 Qed.
 
-Lemma vars_node_op nd op cs C :
-  node_op nd = Some (op, cs) -> length (vars_node (varss C) nd) = musum C cs.
+Lemma mu_of_children_ext (acc acc' : list nat) cs :
+  (forall c, In c cs -> nth c acc 0%nat = nth c acc' 0%nat) ->
+  mu_of_children acc cs = mu_of_children acc' cs.
 Proof.
-  destruct nd as [l|cs'|cs'| |]; cbn [node_op]; intros H; inversion H; subst;
-    cbn [vars_node]; apply length_concat_vars.
+  intros H.
+  assert (HS : fold_right (fun c a => (nth c acc 0%nat + a)%nat) 0%nat cs =
+               fold_right (fun c a => (nth c acc' 0%nat + a)%nat) 0%nat cs).
+  { clear -H. induction cs as [|c cs IH]; [reflexivity|]. cbn [fold_right].
+    rewrite (H c (or_introl eq_refl)). f_equal. apply IH. intros c' Hc'. apply H. now right. }
+  destruct cs as [|c1 [|c2 cs]]; unfold mu_of_children.
+  - reflexivity.
+  - apply H. now left.
+  - now rewrite HS.
+Qed.
+
+Lemma mu_node_local : local mu_node 0%nat.
+Proof.
+  intros acc acc' nd H. destruct nd as [l|cs|cs| |]; cbn [mu_node]; try reflexivity;
+    now apply mu_of_children_ext.
 Qed.
 
 Lemma node_op_children nd op cs : node_op nd = Some (op, cs) -> children nd = cs.
@@ -84,7 +118,7 @@ Record Shape (C : circuit) (st : tstate) : Prop := {
   sh_cache : ts_cache st = map entry_of (ts_bics st);
   sh_range : forall j, (j < length C)%nat -> Lt st j <> 0 /\ - N <= Lt st j < ts_idx st;
   sh_bic : forall bc, In bc (ts_bics st) ->
-      (2 <= length (b_lits bc))%nat /\ N < b_index bc < ts_idx st /\
+      length (b_lits bc) <> 1%nat /\ N < b_index bc < ts_idx st /\
       forall l, In l (b_lits bc) -> l <> 0 /\ - N <= l < b_index bc;
 }.
 
@@ -99,7 +133,7 @@ Proof.
 Qed.
 
 Lemma shape_alloc C st op lits :
-  Shape C st -> (2 <= length lits)%nat ->
+  Shape C st -> length lits <> 1%nat ->
   (forall l, In l lits -> l <> 0 /\ - N <= l < ts_idx st) ->
   Shape C (alloc st op lits).
 Proof.
@@ -164,17 +198,16 @@ Qed.
 (* ---------- Nodes ---------- *)
 
 Definition op_rel (st : tstate) (j : nat) (op : optype) (cs : list nat) : Prop :=
-  cs <> [] /\ (forall c, cs = [c] -> Lt st j = Lt st c) /\
-  ((2 <= length cs)%nat -> In (mkBic (Lt st j) op (map (Lt st) cs)) (ts_bics st)).
+  (forall c, cs = [c] -> Lt st j = Lt st c) /\
+  (length cs <> 1%nat -> In (mkBic (Lt st j) op (map (Lt st) cs)) (ts_bics st)).
 
 Definition node_rel (C : circuit) (st : tstate) (j : nat) : Prop :=
   (forall l, nth j C FalseN = Lit l -> Lt st j = l) /\
-  nth j C FalseN <> TrueN /\ nth j C FalseN <> FalseN /\
   (forall op cs, node_op (nth j C FalseN) = Some (op, cs) -> op_rel st j op cs).
 
 Definition src_rel (C : circuit) (st : tstate) (bc : bicond) : Prop :=
   exists e cs, (e < length C)%nat /\ node_op (nth e C FalseN) = Some (b_op bc, cs) /\
-    (2 <= length cs)%nat /\ map (Lt st) cs = b_lits bc /\ Lt st e = b_index bc /\
+    length cs <> 1%nat /\ map (Lt st) cs = b_lits bc /\ Lt st e = b_index bc /\
     forall j, (j < e)%nat -> Lt st j < b_index bc.
 
 Record Nodes (C : circuit) (st : tstate) : Prop := {
@@ -194,13 +227,12 @@ Lemma node_rel_mono C st nd st' j :
   (forall bc, In bc (ts_bics st) -> In bc (ts_bics st')) ->
   node_rel C st j -> node_rel (C ++ [nd]) st' j.
 Proof.
-  intros Hok Hj HL Hb [H1 [H2 [H3 H4]]]. unfold node_rel. rewrite (nth_snoc_old C nd j FalseN Hj).
+  intros Hok Hj HL Hb [H1 H4]. unfold node_rel. rewrite (nth_snoc_old C nd j FalseN Hj).
   rewrite (HL j Hj). repeat split; auto.
-  - destruct (H4 op cs H) as [A _]. exact A.
-  - intros c ->. destruct (H4 op [c] H) as [_ [B _]]. rewrite (HL j Hj), (B c eq_refl). symmetry. apply HL.
+  - intros c ->. destruct (H4 op [c] H) as [B _]. rewrite (HL j Hj), (B c eq_refl). symmetry. apply HL.
     assert (c < j)%nat; [|lia]. apply (idx_ok_nth C j FalseN Hok Hj).
     rewrite (node_op_children _ _ _ H). now left.
-  - intros Hlen. destruct (H4 op cs H) as [_ [_ D]]. apply Hb. rewrite (HL j Hj).
+  - intros Hlen. destruct (H4 op cs H) as [_ D]. apply Hb. rewrite (HL j Hj).
     rewrite (map_Lt_ext st st' cs (length C) HL); [now apply D|].
     intros c Hc. assert (c < j)%nat; [|lia]. apply (idx_ok_nth C j FalseN Hok Hj).
     now rewrite (node_op_children _ _ _ H).
@@ -258,15 +290,13 @@ Proof.
   destruct (step_inv len st nd st' Hstep) as [l Hnd ->|op c Hnd Hc ->|op cs v Hnd H2 HF Hget ->|op cs Hnd H2 HF Hget ->].
   - (* literal *)
     apply Hgen; auto. unfold node_rel. rewrite Hnew, HLnew by reflexivity. subst nd.
-    repeat split; try discriminate. intros l' H. now inversion H.
+    split; [intros l' H; now inversion H|]. intros op cs H. discriminate.
   - (* single child *)
     assert (Hcc : (c < length C)%nat).
     { apply Hch. rewrite (node_op_children nd op [c] Hnd). now left. }
     apply Hgen; auto. unfold node_rel. rewrite Hnew, HLnew by reflexivity.
     split; [intros l' E; rewrite E in Hnd; discriminate|].
-    split; [intros E; rewrite E in Hnd; discriminate|].
-    split; [intros E; rewrite E in Hnd; discriminate|].
-    intros op' cs' E. rewrite Hnd in E. inversion E; subst op' cs'. split; [discriminate|]. split.
+    intros op' cs' E. rewrite Hnd in E. inversion E; subst op' cs'. split.
     + intros c' E'. inversion E'; subst c'. rewrite (HLnew _ st eq_refl). now rewrite (HLold _ st c eq_refl Hcc).
     + cbn. lia.
   - (* cache hit *)
@@ -274,9 +304,7 @@ Proof.
     { intros c Hc. apply Hch. now rewrite (node_op_children nd op cs Hnd). }
     apply Hgen; auto. unfold node_rel. rewrite Hnew, HLnew by reflexivity.
     split; [intros l' E; rewrite E in Hnd; discriminate|].
-    split; [intros E; rewrite E in Hnd; discriminate|].
-    split; [intros E; rewrite E in Hnd; discriminate|].
-    intros op' cs' E. rewrite Hnd in E. inversion E; subst op' cs'. split; [intros ->; cbn in H2; lia|]. split.
+    intros op' cs' E. rewrite Hnd in E. inversion E; subst op' cs'. split.
     + intros c' ->. cbn in H2. lia.
     + intros _. rewrite (HLnew _ st eq_refl). cbn [set_literal ts_bics].
       rewrite (sh_cache C st HS) in Hget. apply cache_get_some in Hget.
@@ -291,9 +319,7 @@ Proof.
     apply Hgen; [reflexivity|intros bc Hbc; cbn [alloc ts_bics]; apply in_app_iff; now left| |].
     + unfold node_rel. rewrite Hnew, HLnew by reflexivity.
       split; [intros l' E; rewrite E in Hnd; discriminate|].
-      split; [intros E; rewrite E in Hnd; discriminate|].
-      split; [intros E; rewrite E in Hnd; discriminate|].
-      intros op' cs' E. rewrite Hnd in E. inversion E; subst op' cs'. split; [intros ->; cbn in H2; lia|]. split.
+      intros op' cs' E. rewrite Hnd in E. inversion E; subst op' cs'. split.
       * intros c' ->. cbn in H2. lia.
       * intros _. rewrite (HLnew _ (alloc st op lits) eq_refl), Hmap.
         cbn [set_literal alloc ts_bics]. apply in_app_iff. right. now left.
@@ -335,13 +361,6 @@ Proof.
   rewrite mu_snoc_old by (apply H; now left). f_equal. apply IH. intros c' Hc'. apply H. now right.
 Qed.
 
-Lemma musum_pos C cs :
-  cs <> [] -> (forall c, In c cs -> (1 <= mu C c)%nat) -> (1 <= musum C cs)%nat.
-Proof.
-  destruct cs as [|c cs]; [congruence|]. intros _ H. cbn [musum fold_right].
-  specialize (H c (or_introl eq_refl)). lia.
-Qed.
-
 Lemma musum_det C st cs ds :
   (forall j j', In j cs -> In j' ds -> Lt st j = Lt st j' -> mu C j = mu C j') ->
   map (Lt st) cs = map (Lt st) ds -> musum C cs = musum C ds.
@@ -352,13 +371,23 @@ Proof.
   apply IH; [|exact E2]. intros j j' Hj Hj'. apply H; now right.
 Qed.
 
+Lemma mu_unfold C j :
+  idx_ok C = true -> (j < length C)%nat -> mu C j = mu_node (mus C) (nth j C FalseN).
+Proof. intros Hok Hj. unfold mu, mus. apply (pass_unfold mu_node 0%nat 0%nat C j mu_node_local Hok Hj). Qed.
+
 (* value of mu at an operation node of a well-indexed vector *)
 Lemma mu_op C j op cs :
   idx_ok C = true -> (j < length C)%nat -> node_op (nth j C FalseN) = Some (op, cs) ->
-  mu C j = musum C cs.
+  mu C j = mu_cs C cs.
+Proof. intros Hok Hj Hop. rewrite (mu_unfold C j Hok Hj). now apply mu_node_op with (op := op). Qed.
+
+Lemma mu_cs_snoc_old C nd cs :
+  (forall c, In c cs -> (c < length C)%nat) -> mu_cs (C ++ [nd]) cs = mu_cs C cs.
 Proof.
-  intros Hok Hj Hop. unfold mu. rewrite (varss_unfold C Hok j Hj []).
-  now apply vars_node_op with (op := op).
+  intros H. destruct cs as [|c1 [|c2 cs]]; unfold mu_cs.
+  - reflexivity.
+  - apply mu_snoc_old. apply H. now left.
+  - f_equal. now apply musum_snoc_old.
 Qed.
 
 Lemma mu_init : Mu [] (init_state n).
@@ -397,12 +426,12 @@ Proof.
       + rewrite (mu_snoc_old C nd j') by assumption. rewrite (HLold j'), HLnew by assumption.
         intros E. symmetry. now apply Hdet.
       + reflexivity. }
-  (* children of an operation node are old nodes with positive mu *)
+  (* children of an operation node are old nodes *)
   assert (Hop : forall op cs, node_op nd = Some (op, cs) ->
-            (forall c, In c cs -> (c < length C)%nat) /\ mu (C ++ [nd]) (length C) = musum C cs).
+            (forall c, In c cs -> (c < length C)%nat) /\ mu (C ++ [nd]) (length C) = mu_cs C cs).
   { intros op cs Hnd. split.
     - intros c Hc. apply Hch. now rewrite (node_op_children nd op cs Hnd).
-    - rewrite mu_snoc_new. now apply vars_node_op with (op := op). }
+    - rewrite mu_snoc_new. now apply mu_node_op with (op := op). }
   destruct (step_inv len st nd st' Hstep) as [l Hnd ->|op c Hnd Hc ->|op cs v Hnd H2 HF Hget ->|op cs Hnd H2 HF Hget ->].
   - (* literal *)
     assert (Hmu : mu (C ++ [nd]) (length C) = 1%nat) by (rewrite mu_snoc_new; now subst nd).
@@ -410,14 +439,14 @@ Proof.
     intros j' Hj' E. rewrite Hmu. apply (mu_feat C st HM j' Hj'). rewrite E.
     apply (Hlits l). apply in_app_iff. right. left. now symmetry.
   - (* single child *)
-    destruct (Hop op [c] Hnd) as [Hcs Hmu]. cbn [musum fold_right] in Hmu. rewrite Nat.add_0_r in Hmu.
+    destruct (Hop op [c] Hnd) as [Hcs Hmu]. cbn [mu_cs] in Hmu.
     assert (Hcc : (c < length C)%nat) by (apply Hcs; now left).
     apply Hgen; auto; rewrite Hmu.
     + now apply (mu_pos C st HM).
     + now apply (mu_feat C st HM).
     + intros j' Hj' E. now apply (mu_det C st HM).
   - (* cache hit *)
-    destruct (Hop op cs Hnd) as [Hcs Hmu].
+    destruct (Hop op cs Hnd) as [Hcs Hmu]. rewrite (mu_cs_len C cs H2) in Hmu.
     rewrite (sh_cache C st HS) in Hget. apply cache_get_some in Hget.
     destruct (sh_bic C st HS _ Hget) as [_ [Hv _]]. cbn [b_index] in Hv.
     destruct (nd_src C st HN _ Hget) as [e [ce [He [Hope [Hle [Hme [Hie _]]]]]]].
@@ -429,14 +458,14 @@ Proof.
     { apply (musum_det C st); [|exact Hme].
       intros j j' Hj Hj' E. apply (mu_det C st HM); auto. }
     apply Hgen; auto; rewrite Hmu.
-    + apply musum_pos; [intros ->; cbn in H2; lia|]. intros c Hc. apply (mu_pos C st HM). now apply Hcs.
+    + lia.
     + intros Habs. lia.
-    + intros j' Hj' E. rewrite <- Heq, <- (mu_op C e op ce HokC He Hope).
+    + intros j' Hj' E. rewrite <- Heq, <- (mu_cs_len C ce Hle), <- (mu_op C e op ce HokC He Hope).
       apply (mu_det C st HM); auto. now rewrite E, Hie.
   - (* fresh variable *)
-    destruct (Hop op cs Hnd) as [Hcs Hmu].
+    destruct (Hop op cs Hnd) as [Hcs Hmu]. rewrite (mu_cs_len C cs H2) in Hmu.
     apply Hgen; [reflexivity| | |]; rewrite Hmu.
-    + apply musum_pos; [intros ->; cbn in H2; lia|]. intros c Hc. apply (mu_pos C st HM). now apply Hcs.
+    + lia.
     + intros Habs. lia.
     + intros j' Hj' E. destruct (sh_range C st HS j' Hj') as [_ Hr]. lia.
 Qed.
